@@ -18,6 +18,7 @@
      "nolen"   strings written without their length
      "notag"   ints written without the trailing 'i'
      "nosort"  dict items written in insertion order
+     "newline-joined"    the cdef sources glued with '\n' into one field of the key
      "backslashreplace"  the key encoded with ('ascii', 'backslashreplace') instead of UTF-8  *)
 EXTENDS Integers, Sequences, FiniteSets, TLC
 
@@ -98,8 +99,12 @@ ParsePairs(n, s) == IF n = 0 THEN [ok |-> TRUE, val |-> <<>>, rest |-> s]
 \* ---------------------------------------------------------------- Verifier.__init__: the key
 RECURSIVE Join(_)
 Join(parts) == IF Len(parts) = 1 THEN parts[1] ELSE parts[1] \o <<NUL>> \o Join(Tail(parts))
+\* every cdef() source is a field of its own: the key must tell how the text was split over the cdef() calls
+RECURSIVE JoinNL(_)
+JoinNL(parts) == IF parts = <<>> THEN <<>> ELSE IF Len(parts) = 1 THEN parts[1] ELSE parts[1] \o <<10>> \o JoinNL(Tail(parts))
 Key(ver, vvm, preamble, kwds, sources) ==                           \* verifier.py:53-56
-    Join(<<ver, vvm, preamble, Flatten(kwds)>> \o sources)
+    IF Variant = "newline-joined" THEN Join(<<ver, vvm, preamble, Flatten(kwds), JoinNL(sources)>>)   \* broken
+    ELSE Join(<<ver, vvm, preamble, Flatten(kwds)>> \o sources)
 \* decoder of the key for NUL-free version strings, preamble and sources
 RECURSIVE SplitNul(_)
 SplitNul(s) == LET P == {k \in 1..Len(s) : s[k] = NUL} IN
